@@ -211,6 +211,50 @@ impl Prop for Short {
     }
 }
 
+/// characters whose upper- or lower-case mapping has a different number of characters
+/// (ligatures, sharp s, dotted I, ...): a case-insensitive comparison built on to_uppercase /
+/// to_lowercase can "match" a text of a different length
+pub fn special_casing_chars() -> &'static Vec<(char, String, String)> {
+    static S: std::sync::OnceLock<Vec<(char, String, String)>> = std::sync::OnceLock::new();
+    S.get_or_init(|| {
+        let mut v = Vec::new();
+        for cp in 0x80u32..0x1_0000 {
+            if let Some(c) = char::from_u32(cp) {
+                let up: String = c.to_uppercase().collect();
+                let lo: String = c.to_lowercase().collect();
+                if up.chars().count() > 1 || lo.chars().count() > 1 {
+                    v.push((c, up, lo));
+                }
+            }
+        }
+        v
+    })
+}
+
+/// every way of replacing a run of ASCII letters of `text` by one special-casing character whose
+/// upper- or lower-case expansion equals that run (ignoring case)
+pub fn case_fold_collisions(text: &str) -> Vec<String> {
+    let cs: Vec<char> = text.chars().collect();
+    let mut out = Vec::new();
+    for (c, up, lo) in special_casing_chars() {
+        for exp in [up, lo] {
+            let n = exp.chars().count();
+            if n < 2 || !exp.is_ascii() {
+                continue;
+            }
+            for pos in 0..cs.len().saturating_sub(n - 1) {
+                let run: String = cs[pos..pos + n].iter().collect();
+                if run.eq_ignore_ascii_case(exp) {
+                    let mut v = cs.clone();
+                    v.splice(pos..pos + n, std::iter::once(*c));
+                    out.push(v.into_iter().collect());
+                }
+            }
+        }
+    }
+    out
+}
+
 pub fn strings_up_to(len: usize) -> Vec<String> {
     let mut all = vec![String::new()];
     let mut frontier = vec![String::new()];
@@ -439,6 +483,45 @@ pub fn run(env: &mut Env) {
             }
         }
     }
+    // case-fold collisions: names of the symbol tables with a run of letters replaced by one
+    // character whose case mapping expands to that run ("Auguﬆ" for "August"), at the end of the
+    // input and followed by more text
+    let names: Vec<(u8, &str, String)> = {
+        let mut v: Vec<(u8, &str, String)> = Vec::new();
+        for m in crate::model::cal::MONTH_WIDE {
+            v.push((0, "yyyy-dd-MMMM", format!("2022-02-{}", m)));
+            v.push((2, "MMMM d, yyyy HH:mm", format!("{} 2, 2022 10:30", m)));
+            v.push((0, "MMM''yy", format!("{}'22", &m[..3])));
+        }
+        for d in crate::model::cal::WDAY_WIDE {
+            v.push((0, "yyyy-MM-dd eeee", format!("2022-05-02 {}", d)));
+            v.push((2, "eeee', 'HH", format!("{}, 10", d)));
+        }
+        for t in ["Anno Domini", "Before Christ", "1st quarter", "2nd quarter", "3rd quarter", "4th quarter"] {
+            v.push((0, if t.ends_with("quarter") { "yyyy qqqq" } else { "yyyy GGGG" }, format!("2022 {}", t)));
+        }
+        for t in ["midnight", "noon", "a.m.", "p.m.", "AM", "pm"] {
+            v.push((1, "hh:mm:ss bbbb", format!("12:00:00 {}", t)));
+            v.push((1, "hh:mm:ss b", format!("12:00:00 {}", t)));
+            v.push((1, "bbbb hh", format!("{} 12", t)));
+        }
+        for t in ["jan-dec", "MON-FRI", "sun", "Sat,Sun"] {
+            v.push((7, "", format!("0 0 1 {} {}", if t.contains('n') && t.len() > 3 && t.starts_with('j') { t } else { "*" }, if t.starts_with('j') { "*" } else { t })));
+        }
+        v
+    };
+    let mut folds = Vec::new();
+    for (api, pattern, text) in &names {
+        for mutated in case_fold_collisions(text) {
+            folds.push(Case { api: *api, pattern: pattern.to_string(), input: mutated.clone() });
+            if *api == 7 {
+                folds.push(Case { api: 8, pattern: String::new(), input: mutated });
+            }
+        }
+    }
+    let nfolds = folds.len();
+    env.run_list::<Mutated>(folds);
+    env.exhaustive_parts.push(format!("C14: {} case-fold collisions (a run of letters of a month/weekday/era/quarter/period/cron name replaced by one special-casing character such as a ligature)", nfolds));
     let nsubs = subs.len();
     env.run_list::<Mutated>(subs);
     env.exhaustive_parts.push(format!("C14: {} multi-byte substitutions (byte-length preserving and character-count preserving, at every position) of 13 valid texts/patterns", nsubs));
